@@ -63,5 +63,11 @@ def unit_text(chk, syscall_entry_hook="((void)0)", with_sim_globals=False):
     text += "#define TB_SYSCALL_ENTRY(sc) %s\n" % syscall_entry_hook
     text += tbx.handleSyscall(m)
     rp, prologue = tbx.run_parts(m)
-    text += rp + TB_POWER_ON
+    text += rp
+    # small free helper functions of hextb.cpp that the extracted bodies call (e.g. a reset-window predicate)
+    protos, defs = hv.pull_helpers(text, "hextb.cpp", m)
+    if protos:
+        i = text.index("#define TB_SYSCALL_ENTRY")
+        text = text[:i] + protos + text[i:] + defs
+    text += TB_POWER_ON
     return text, {"RESET_BEGIN": rb, "RESET_END": re_, "prologue": prologue["stmts"], "extra_locals": prologue["extra_locals"]}
